@@ -111,11 +111,15 @@ def ev(n, ctx):
         return int(n["value"])
     if k == "CXXBoolLiteralExpr":
         return 1 if n.get("value") else 0
+    if k == "StringLiteral":
+        return 1
     if k in ("ImplicitCastExpr", "CXXStaticCastExpr", "CXXFunctionalCastExpr", "CStyleCastExpr"):
         ck = n.get("castKind")
         v = ev(ks[-1], ctx)
         if ck in ("LValueToRValue", "NoOp"):
             return v
+        if ck in ("ArrayToPointerDecay", "PointerToBoolean") and ir.strip(ks[-1]).get("kind") == "StringLiteral":
+            return 1            # the address of a string literal (`cond && "message"` in an assertion): not null
         if ck in ("IntegralCast", "IntegralToBoolean", "BooleanToSignedIntegral"):
             return conv(v, ir.qtype(n))
         raise Unknown("cast kind %s" % ck)
